@@ -213,7 +213,7 @@ func TestConf_AveragesUnderReadFaults(t *testing.T) {
 		}
 		run := func(faultAt int) (out []map[fat2.PTicker]uint64, panics int, fired int) {
 			confAvgReset(d)
-			vfSetFault("SELECT token, value FROM pn_rate WHERE height", faultAt)
+			vfSetFault("pn_rate", faultAt) // any statement that reads the rates table
 			defer vfSetFault("", 0)
 			for _, h := range heights {
 				var m map[fat2.PTicker]uint64
